@@ -379,7 +379,7 @@ loop:
 				return -1, xerr.Wrap("dns", ErrInvalidSetting)
 			}
 			for x, v, e := int(c[i+1]), i+2, i+2; x > 0 && v < n; x-- {
-				if v += int(c[v]) + 1; e+1 > v || e+1 == v || v < e || v > n || e > n || x > n || e < i || v < i || x < i {
+				if v += int(c[v]) + 1; e+1 > v || e+1 == v || v < e || v > n || e > n || x > n || e < i || v < i {
 					return -1, xerr.Wrap("dns", ErrInvalidSetting)
 				}
 				e = v
@@ -685,7 +685,7 @@ loop:
 			_ = c[i+1]
 			d := make(transform.DNSTransform, 0, c[i+1])
 			for x, v, e := int(c[i+1]), i+2, i+2; x > 0 && v < n; x-- {
-				if v += int(c[v]) + 1; e+1 > v || e+1 == v || v < e || v > n || e > n || x > n || e < i || v < i || x < i {
+				if v += int(c[v]) + 1; e+1 > v || e+1 == v || v < e || v > n || e > n || x > n || e < i || v < i {
 					return nil, -1, 0, xerr.Wrap("dns", ErrInvalidSetting)
 				}
 				d = append(d, string(c[e+1:v]))
